@@ -16,3 +16,11 @@ Print Assumptions C15_option_changes_only_the_table_rule.
 Theorem C15_default_is_off : gen_database_default_allow_properties = false.
 Proof. reflexivity. Qed.
 Print Assumptions C15_default_is_off.
+
+(* the results name `property` — the only place the build actions read arbitrary properties from — occurs nowhere in the grammar
+   used with the option off (nor in a Forward body), and at three places with the option on *)
+Theorem C15_property_name_only_with_the_option :
+  count_rname 60 (s2l "property") gen_top_off = 0 /\ count_rname 60 (s2l "property") gen_top_on = 3
+  /\ forallb (fun e => Nat.eqb (count_rname 60 (s2l "property") e) 0) forward_bodies = true.
+Proof. exact property_name_only_with_the_option. Qed.
+Print Assumptions C15_property_name_only_with_the_option.
